@@ -3,7 +3,7 @@
    positive, nat stay Coq datatypes. No Extract Constant of our own. *)
 Require Extraction.
 Require ExtrOcamlBasic.
-From Lospan Require Import Base.Bytes Base.AES Base.Outcome Gen.Consts Model.CMAC Model.FrameTypes Model.Crypto Model.MacCmd Model.Frame Model.Join Model.Store Model.Server Model.Gateway Model.Router
+From Lospan Require Import Base.Bytes Base.AES Base.Outcome Gen.Consts Model.CMAC Model.FrameTypes Model.Crypto Model.MacCmd Model.Frame Model.Join Model.Store Model.Server Model.Gateway Model.Router Model.Keygen
   Spec.RFC4493 Spec.MacLayout Spec.LoRaFrame Spec.RefDevice Spec.AbsRouter.
 Extraction Language OCaml.
 Extraction "lospan_model.ml"
@@ -16,4 +16,5 @@ Extraction "lospan_model.ml"
   dt_by_eui dt_by_devaddr dt_get dt_put key_empty max_payload
   gw_unmarshal gw_marshal gw_step encode_and_send key_present lookup_frequency authorised
   rrun expected expected_closed
+  astep eui_of exhausted
   ref_uplink ref_on_downlink ref_join_request ref_on_join_accept ref_mic ref_crypt mic4.
